@@ -193,6 +193,8 @@ def judge(ctx, idx, case):
     ctx.hub.context = {"check": ID, "idx": idx}
     st, reports, cchecks, handed = run_history(ctx, idx, case)
     ctx.count("mode.%s" % case["mode"])
+    for ip in getattr(st, "intent_problems", []):
+        reports.append({"step": 0, "op": ["docinit"], "what": "(b) " + ip, "witness": {"clause": "b", "at": "constructor"}})
     if reports:
         ctx.violation(idx, "namespace history violates C03: %s" % reports[0]["what"], case,
                       {"reports": reports[:5], "outcomes": st.outcomes,
